@@ -23,8 +23,10 @@ package dns
 //@   assume at "return ua.Net == " unixaddr: ua != nil
 //@ func (*Conn).tsigProvider [C11 C12]
 //@   requires co != nil
-//@ func (*Server).tsigProvider [C12 C14]
+// a server that has TSIG configured - a provider, or a key map (even an empty one: then every key is unknown) - verifies
+//@ func (*Server).tsigProvider [C12 C14 C11]
 //@   requires srv != nil
+//@   ensures configured: (srv.TsigProvider != nil ==> ret0 == srv.TsigProvider) && (srv.TsigProvider == nil && srv.TsigSecret != nil ==> ret0 != nil) && (srv.TsigProvider == nil && srv.TsigSecret == nil ==> ret0 == nil)
 //@ func (*Transfer).tsigProvider [C11 C15]
 //@   requires t != nil
 //@ func (*Server).getReadTimeout [C12 C14]
@@ -61,3 +63,16 @@ package dns
 //@ func PrivateHandleRemove [C05 C01]
 //@   opt no-safety
 //@   exit gone: ok ==> !maphas(TypeToString, rtype) && !maphas(TypeToRR, rtype)
+
+// the default reader hands on exactly what one read of the connection produced (an empty datagram is a datagram: it is
+// for serveDNS to report it), and a read gives up its message only together with an error
+//@ func (defaultReader).ReadUDP [C14 C12]
+//@   opt no-safety
+//@   exit once: same(ret0, callres("readUDP", 0)) && ret2 == callres("readUDP", 2)
+//@ func (defaultReader).ReadPacketConn [C14 C12]
+//@   opt no-safety
+//@   exit once: same(ret0, callres("readPacketConn", 0)) && ret2 == callres("readPacketConn", 2)
+//@ func (*Server).readPacketConn [C14 C12]
+//@   opt no-safety
+//@   requires srv != nil
+//@   assert at "return nil, nil, err" onlyerr: err != nil
